@@ -341,7 +341,6 @@ package dotgit
 //gvc:  theory int
 //gvc:  opt coarse
 //gvc:  opt frame args
-//gvc:  requires nn: w != nil && w.fs != nil && w.fw != nil
 //gvc:  sink clean requires dup: w.fs.#lstatAt[strid(packPath)] == w.fs.#clock && w.fs.#regAt[strid(packPath)]
 //gvc:  sink Rename requires place: same_string(arg1, packPath)
 //gvc:  ensures placed: result == nil ==> calls("Rename") + calls("clean") >= 1
